@@ -419,3 +419,60 @@ Example pad_in_bounds_generated_hyps :
   ok (gen_sizes_list [31; 16] [Q2Qc 1; Q2Qc (33 # 32)] [true]) = true /\
   ok (gen_sizes_list [1; 16] [Q2Qc (3 # 2); Q2Qc (33 # 32)] [false]) = true.
 Proof. vm_compute. repeat split; reflexivity. Qed.
+
+(** ** Where PhaseSpace::nb and the bucket list of the field objects come from (round "stmisc"; strengthening after
+    seeded change C17-G: the reader takes the number of bunches from the start file, main() compares it with the number
+    of BUCKETS).  padBunchProfiles and wakePotential index `_bucket[b]` for b < PhaseSpace::nb; `_bucket` is main()'s
+    `bucketnumbers`, one entry per FILLED bucket of the configured filling pattern, while PhaseSpace::nb is fixed by the
+    first call of PhaseSpace::setSize - main() itself without a start file, HDF5File::readPhaseSpace or makePSFromTXT
+    with one.  Generated facts (Gen/Gen_NbSource.v by translate/nbsource2coq.py from main(), PhaseSpaceFactory.cpp,
+    ElectricField.cpp; Gen/Gen_H5Index.v: readPhaseSpace, PhaseSpace::setSize, main()'s grid-size refusal), put together
+    in Model/NbSource.v ([start_nb]: PhaseSpace::nb of a run that goes on, None when main() quits first).
+    [bucket_index_in_bounds]: every field object of main() is given `bucketnumbers`; the bucket numbers are numbers of
+    buckets of the pattern; and for EVERY start-up path (no file / HDF5 file of rank 3 or 4 with any extents and any
+    InitialDistStep / text file), every GridSize and every filling pattern: if main() goes on, PhaseSpace::nb is at most
+    the length of the bucket list, so every `_bucket[b]` of every generated site (loop bound PhaseSpace::nb or the list's
+    own size) is inside the list.  The reason it holds on the file paths: the readers size the phase space with ONE
+    bunch and main() quits when no bucket is filled (fix 12d296d); a results file that holds several bunches is refused
+    by the reader ([multibunch_startfile_refused]: its data do not fit a one-bunch grid).  A reader that takes the number
+    of bunches from the file breaks the first theorem unless main() compares it with the number of FILLED buckets. *)
+From Inovesa Require Model.NbSourceTypes Gen.Gen_NbSource Model.NbSource Proofs.NbSourceP.
+Theorem bucket_index_in_bounds :
+  NbSource.fields_get_bucketnumbers = true /\
+  (forall filling b, In b (NbSource.bucketnumbers filling) -> 0 <= b < Z.of_nat (List.length filling)) /\
+  forall (s : NbSource.start) (gridsize : Z) (filling : list Z) (nb : Z),
+    NbSource.start_nb s gridsize filling = Some nb ->
+    nb <= Z.of_nat (List.length (NbSource.bucketnumbers filling)) /\
+    forallb (NbSource.site_ok nb (Z.of_nat (List.length (NbSource.bucketnumbers filling)))) Gen_NbSource.gen_bucket_sites = true /\
+    forall b, 0 <= b < nb -> (Z.to_nat b < List.length (NbSource.bucketnumbers filling))%nat.
+Proof. exact NbSourceP.bucket_index_in_bounds_thm. Qed.
+Print Assumptions bucket_index_in_bounds.
+
+Theorem multibunch_startfile_refused :
+  forall dims step gridsize filling, List.length dims = 4%nat -> 2 <= nth 1 dims 0 -> 0 < nth 2 dims 0 ->
+    NbSource.start_nb (NbSource.H5File dims step) gridsize filling = None.
+Proof. exact NbSourceP.multibunch_startfile_refused_thm. Qed.
+Print Assumptions multibunch_startfile_refused.
+
+(** the pinned main() (no guard on the number of filled buckets): `-I 0 -i start.h5` reaches the field objects with
+    PhaseSpace::nb = 1 and an empty bucket list *)
+Theorem bucket_index_pinned_refuted :
+  exists filling dims step gridsize nb,
+    NbSource.start_nb_with 0 (NbSource.H5File dims step) gridsize filling = Some nb /\
+    NbSource.bucketnumbers filling = [] /\ 0 < nb.
+Proof. exact NbSourceP.bucket_index_pinned_refuted_thm. Qed.
+Print Assumptions bucket_index_pinned_refuted.
+
+(** non-vacuity (an unfilled bucket is written -1: unfilled for a test `> 0` as for `>= 0`): a single-bunch results file
+    continued with three buckets of which two are filled goes on with one
+    bunch and the bucket list [2; 0]; without a file the same pattern gives two bunches; a pattern without a filled bucket
+    and a two-bunch file do not go on *)
+Example bucket_index_in_bounds_hyps :
+  NbSource.start_nb (NbSource.H5File [3; 1; 32; 32] (-1)) 32 [1; -1; 1] = Some 1 /\
+  NbSource.bucketnumbers [1; -1; 1] = [2; 0] /\
+  NbSource.start_nb NbSource.NoFile 32 [1; -1; 1] = Some 2 /\
+  NbSource.start_nb NbSource.TxtFile 32 [-1; 1] = Some 1 /\
+  NbSource.start_nb NbSource.NoFile 32 [-1; -1] = None /\
+  NbSource.start_nb (NbSource.H5File [3; 2; 32; 32] (-1)) 32 [1; 1] = None /\
+  NbSource.start_nb (NbSource.H5File [3; 1; 16; 16] (-1)) 32 [1] = None.
+Proof. vm_compute. repeat split; reflexivity. Qed.
